@@ -501,6 +501,11 @@ pub fn parse_choice_text(input: &str) -> Result<ParsedChoiceText, CompilerError>
         });
     }
 
+    // `text -> target` on the choice line: the printed text keeps its trailing space
+    // and is not followed by a line break, so the target's content joins it.
+    let had_space_before_inline_divert = split_inline_divert(trimmed)
+        .and_then(|(text, _)| text.chars().last())
+        .is_some_and(char::is_whitespace);
     let (trimmed, inline_target) = split_inline_choice_divert(trimmed)?;
     let (start_text, start_tags) = split_text_and_tags(trimmed)?;
     // Without brackets the whole text (tags included) is both the choice and its output.
@@ -509,6 +514,9 @@ pub fn parse_choice_text(input: &str) -> Result<ParsedChoiceText, CompilerError>
         display_text: start_text.clone(),
         selected_text: if start_text.is_empty() {
             None
+        } else if inline_target.is_some() && had_space_before_inline_divert && start_tags.is_empty()
+        {
+            Some(format!("{start_text} "))
         } else {
             Some(start_text.clone())
         },
